@@ -35,7 +35,7 @@ REQUIRED_BUCKETS = ['op:Plane()', 'op:Pupil(mask3d)', 'op:multiply', 'op:propaga
                     'op:rescale', 'op:adc', 'op:collect_charge', 'op:collect_charge_bayer', 'op:tilt-multiply', 'op:Field(ndarray offset)', 'op:Plane.properties', 'op:pixel', 'op:jitter', 'op:smear',
                     'op:dft2', 'op:idft2', 'op:zernike_fit', 'op:pad', 'op:rebin', 'op:power_spectrum', 'op:Spectrum.multiply',
                     'op:Spectrum.sample', 'op:Spectrum.bin', 'op:Spectrum.to', 'op:refusals', 'op:fit_tilt:nothing-to-fit', 'op:fit_tilt:inplace', 'op:shot_noise', 'op:read_noise', 'program', 'dft-keys>32',
-                    'replayed', 'op:dft2:nearby-shifts', 'op:zernike:supplied-coordinates']
+                    'replayed', 'op:dft2:nearby-shifts', 'op:zernike:supplied-coordinates', 'op:Rotate(angle=array)']
 REQUIRED_ANCHORS = ['anchor:_dft2_coords', 'anchor:Plane.__init__', 'anchor:adc', 'anchor:Plane.fit_tilt', 'anchor:Field.__mul__']
 REQUIRED_ORACLES = ['frozen-inputs', 'inputs-unchanged', 'history-deterministic', 'global-rng-untouched', 'global-state-untouched', 'dft-cache-intact',
                     'path-independent']
@@ -429,6 +429,17 @@ def catalogue(lentil, rng):
             return (lentil.zernike(a['sub'], 4, **kw), lentil.zernike(a['full'], 7, **kw), lentil.zernike_basis(a['sub'], [2, 3, 6], **kw),
                     lentil.zernike_compose(a['full'], a['coeffs'], **kw), lentil.zernike_fit(a['opd'] * a['sub'], a['sub'], [1, 2, 3], **kw),
                     lentil.zernike_remove(a['opd'] * a['full'], a['full'], [2, 3], **kw))
+        return a, call
+
+    @op('Rotate(angle=array)')
+    def _():
+        # constructors are calls too: an angle handed over in a NumPy array (one element of a table of angles) stays the caller's
+        a = {'angles': rng.uniform(0.1, 1.5, size=3), 'one': np.array(float(rng.uniform(0.1, 1.5)))}
+        def call(a):
+            r1 = lentil.Rotate(angle=a['angles'][1:2], unit='radians')
+            r2 = lentil.Rotate(angle=a['one'], unit='radians')
+            r3 = lentil.Rotate(angle=a['one'], unit='degrees')
+            return (np.asarray(r1.angle, float), np.asarray(r2.angle, float), np.asarray(r3.angle, float))
         return a, call
 
     @op('idft2')
